@@ -418,6 +418,12 @@ class FakeSocket:
 
     def getpeername(self):
         self._check_open()
+        if "getpeername" in self.sticky:      # e.g. ERR(ENOTCONN) after a reset, or ("addr", (host, port))
+            ans = self.sticky["getpeername"]
+            self.net.log.append((self.name, "getpeername", ans))
+            if ans[0] == "addr":
+                return tuple(ans[1])
+            self._raise(ans, "getpeername")
         if self.state != "connected":
             raise oserror(_errno.ENOTCONN)
         return self.raddr
